@@ -103,7 +103,7 @@ func gen(g *mon.Gen) {
 		for i := 0; i < n; i++ {
 			g.Emit(&Case{Kind: "lattice", Target: ti, I: i, Deep: g.Thorough(), Seed: rng.Int63()})
 		}
-		for k := 0; k < g.Pick(1500, 60000); k++ {
+		for k := 0; k < g.Pick(6000, 60000); k++ {
 			g.Emit(&Case{Kind: "random", Target: ti, Seed: rng.Int63()})
 		}
 	}
